@@ -1,5 +1,6 @@
 import BeyondVerif.Model.Tle
 import BeyondVerif.Model.TleOrb
+import BeyondVerif.Model.TleQuant
 
 /-!
 Kernel-checked facts (`decide`) about concrete inputs on which an earlier version of beyond/io/tle.py falsified a
@@ -82,5 +83,13 @@ shorter negative numbers get zeros in front of the sign and are refused -/
 theorem negative_norad :
     (fromOrbitN (intStr (-1234)) refRec).toOption.map (·.norad) = some (-1234) ∧
     (match fromOrbitN (intStr (-5)) refRec with | .error .valueError => true | _ => false) = true := by decide
+
+/-! ### the wrap of an angle must be Python's `%`, not C's `fmod` (`Model/TleQuant.lean`) -/
+
+/-- −28.5° and −170°: `%` gives 331.5 and 190 (printed `331.5000`, `190.0000`); the truncated `fmod` keeps the sign, the
+field would read `-28.5000` (not an angle of the format) and `-170.0000` (nine columns: a 70-character line) -/
+theorem wrap_is_floor_modulo :
+    fixQ 4 (wrapDeg ⟨-57, 2⟩) = 3315000 ∧ fixQ 4 (wrapDeg ⟨-170, 1⟩) = 1900000 ∧ fixQ 4 (wrapDeg ⟨1000, 1⟩) = 2800000 ∧
+    fixQ 4 (fmodDeg ⟨-57, 2⟩) = -285000 ∧ fixQ 4 (fmodDeg ⟨-170, 1⟩) = -1700000 := by decide
 
 end BeyondVerif.C12W
